@@ -1283,6 +1283,46 @@ impl Built {
                 rb(&mut out, "number_of_sections()", t.number_of_sections(), a(op, 0) as u32);
                 rb(&mut out, "entry_size()", t.entry_size(), a(op, 1) as u32);
                 rb(&mut out, "shndx()", t.shndx(), a(op, 2) as u32);
+                // sections(): only for a well-formed table (Appendix A.3) — whole
+                // entries of a known size, string-table index in range. Names are
+                // not resolved (that dereferences an address stored in the data).
+                let (n, es, shndx, raw) = (a(op, 0) as u32 as usize, a(op, 1) as u32 as usize, a(op, 2) as u32 as usize, op.bytes(0));
+                if (es == 40 || es == 64) && n * es == raw.len() && shndx < n {
+                    let got: Vec<(u32, u64, u64, u64)> = {
+                        let _off = ScopeOff::new();
+                        t.sections().map(|s| (s.section_type_raw(), s.start_address(), s.size(), s.addralign())).collect()
+                    };
+                    let all: Vec<(u32, u64, u64, u64)> = {
+                        let _off = ScopeOff::new();
+                        raw.chunks_exact(es)
+                            .map(|e| {
+                                let w32 = |o: usize| u32::from_le_bytes(e[o..o + 4].try_into().unwrap());
+                                let w64 = |o: usize| u64::from_le_bytes(e[o..o + 8].try_into().unwrap());
+                                if es == 40 {
+                                    (w32(4), w32(12) as u64, w32(20) as u64, w32(32) as u64)
+                                } else {
+                                    (w32(4), w64(16), w64(32), w64(48))
+                                }
+                            })
+                            .collect()
+                    };
+                    // what comes back must be the given entries, in order, without
+                    // the unused ones (type 0); which *other* types an implementation
+                    // chooses to skip is not prescribed, the architected 1..=11 must appear
+                    let mut it = all.iter();
+                    let in_order = got.iter().all(|g| it.any(|e| e == g));
+                    let must: Vec<_> = all.iter().filter(|e| (1..=11).contains(&e.0)).collect();
+                    let mut it2 = got.iter();
+                    let complete = must.iter().all(|m| it2.any(|g| &g == m));
+                    if !in_order || !complete || got.iter().any(|g| g.0 == 0) {
+                        out.findings.push(Finding {
+                            clause: "readback",
+                            detail: format!("sections(): {} entries came back for {} given ({} with an architected type); not the given entries in order", got.len(), all.len(), must.len()),
+                        });
+                    }
+                    let _off = ScopeOff::new();
+                    out.observed.extend_from_slice(format!("sections={};", got.len()).as_bytes());
+                }
                 keep!(t);
             }
             Built::Apm(v) => {
@@ -1711,6 +1751,18 @@ pub fn gen_len(rng: &mut Rng, max_len: usize) -> usize {
     }
 }
 
+/// Element count for a list of `unit`-byte elements: like `gen_len`, plus the
+/// counts at which the list's *byte* length crosses 2^8, 2^12 and 2^16.
+pub fn gen_count(rng: &mut Rng, max_count: usize, unit: usize) -> usize {
+    let crossings: Vec<usize> =
+        [256usize, 4096, 65536].iter().map(|t| (t + unit - 1) / unit).filter(|c| c + 1 <= max_count).collect();
+    if !crossings.is_empty() && rng.chance(1, 12) {
+        let c = *rng.pick(&crossings);
+        return c - 1 + rng.below(3) as usize;
+    }
+    gen_len(rng, max_count)
+}
+
 pub fn gen_args(c: Ctor, rng: &mut Rng, k: &GenKnobs) -> (Vec<u64>, Vec<Vec<u8>>) {
     let mut m = 0u64;
     // one call in sixteen draws (most of) its scalars from the domain
@@ -1751,7 +1803,7 @@ pub fn gen_args(c: Ctor, rng: &mut Rng, k: &GenKnobs) -> (Vec<u64>, Vec<Vec<u8>>
         Ctor::BasicMeminfo => (vec![sc(rng, 32), sc(rng, 32)], vec![]),
         Ctor::Bootdev => (vec![sc(rng, 32), sc(rng, 32), sc(rng, 32)], vec![]),
         Ctor::Mmap => {
-            let n = gen_len(rng, k.max_len / 24).min(3000);
+            let n = gen_count(rng, (k.max_len / 24).min(3000), 24);
             let mut b = Vec::with_capacity(n * 20);
             // real memory maps are sorted and mostly contiguous, with runs of
             // equal type: one map in four is generated that way
@@ -1802,7 +1854,7 @@ pub fn gen_args(c: Ctor, rng: &mut Rng, k: &GenKnobs) -> (Vec<u64>, Vec<Vec<u8>>
             let kind = rng.below(3);
             let b = match kind {
                 0 => {
-                    let n = gen_len(rng, (k.max_len / 3).min(22000));
+                    let n = gen_count(rng, (k.max_len / 3).min(22000), 3);
                     rng.bytes(3 * n)
                 }
                 1 => rng.bytes(6),
@@ -1823,14 +1875,23 @@ pub fn gen_args(c: Ctor, rng: &mut Rng, k: &GenKnobs) -> (Vec<u64>, Vec<Vec<u8>>
                 // size, a whole number of entries, a string-table index that is
                 // in range or one of ELF's reserved indices (SHN_XINDEX, …)
                 let entsize = if rng.chance(1, 2) { 40 } else { 64 };
-                let n = rng.below(7);
+                // mostly a handful of sections; sometimes more than 2^16 bytes of them
+                let n = if k.max_len >= 60000 && rng.chance(1, 3) { rng.range(1020, 1700) } else { rng.below(7) };
                 let shndx = match rng.below(6) {
                     0 => 0xFFFF,
                     1 => 0xFF00,
                     2 => 0,
+                    3 if n > 0 => n - 1,
                     _ => rng.below(n + 1),
                 };
-                return (vec![n, entsize, shndx], vec![rng.bytes((n * entsize) as usize)]);
+                let mut table = rng.bytes((n * entsize) as usize);
+                // section types mostly architected ones (offset 4 of each entry)
+                for e in table.chunks_exact_mut(entsize as usize) {
+                    if rng.chance(3, 4) {
+                        e[4..8].copy_from_slice(&(rng.below(13) as u32).to_le_bytes());
+                    }
+                }
+                return (vec![n, entsize, shndx], vec![table]);
             }
             let l = gen_len(rng, k.max_len);
             (vec![sc(rng, 32), sc(rng, 32), sc(rng, 32)], vec![rng.bytes(l)])
@@ -1927,7 +1988,7 @@ pub fn gen_args(c: Ctor, rng: &mut Rng, k: &GenKnobs) -> (Vec<u64>, Vec<Vec<u8>>
             (vec![ds, dv], vec![rng.bytes(l)])
         }
         Ctor::EfiMmapFromDescs => {
-            let n = gen_len(rng, k.max_len / 40).min(1700);
+            let n = gen_count(rng, (k.max_len / 40).min(1700), 40);
             (vec![], vec![rng.bytes(n * 40)])
         }
         Ctor::EfiBsNew | Ctor::EfiBsDefault | Ctor::EndDefault | Ctor::HEndNew | Ctor::HEndDefault => (vec![], vec![]),
@@ -1951,7 +2012,7 @@ pub fn gen_args(c: Ctor, rng: &mut Rng, k: &GenKnobs) -> (Vec<u64>, Vec<Vec<u8>>
             (vec![typ], vec![rng.bytes(l)])
         }
         Ctor::HInfoReq => {
-            let n = gen_len(rng, k.max_len / 4).min(17000);
+            let n = gen_count(rng, (k.max_len / 4).min(17000), 4);
             let mut b = Vec::with_capacity(4 * n);
             for _ in 0..n {
                 let v = if rng.chance(2, 3) { rng.range(0, 22) } else { sc(rng, 32) };
